@@ -1227,7 +1227,21 @@ func ruleC12_6(c *Ctx) {
 						}
 					}
 				}
-				if filled || fname(f) == "in_toto.LoadMetadata" {
+				// a field of the literal handed to json.Unmarshal (json.Unmarshal(raw, &mb.Signatures)) fills it as well
+				for _, r := range *al.Referrers() {
+					if fa, ok := r.(*ssa.FieldAddr); ok {
+						for _, rr := range *fa.Referrers() {
+							if mi, ok := rr.(*ssa.MakeInterface); ok {
+								for _, r3 := range *mi.Referrers() {
+									if call, ok := r3.(ssa.CallInstruction); ok && calleeName(call) == "encoding/json.Unmarshal" {
+										filled = true
+									}
+								}
+							}
+						}
+					}
+				}
+				if filled || c.isOrServesOnly(f, "in_toto.LoadMetadata", "(*in_toto.Metablock).Load") {
 					continue
 				}
 				n++
@@ -1242,7 +1256,7 @@ func ruleC12_6(c *Ctx) {
 					}
 				}
 				// the summary link is returned to the caller, never dumped by the library, and Sign appends: accept with reason
-				if !okSig && fname(f) == "in_toto.GetSummaryLink" {
+				if !okSig && c.isOrServesOnly(f, "in_toto.GetSummaryLink") {
 					c.trivial(R, fname(f), "literal "+t, al.Pos(), "reviewed: the summary link is an in-memory result that the library never dumps")
 					continue
 				}
